@@ -4,7 +4,7 @@ import argmodel as A
 import tables as T
 from cfg import cfg_of
 from flow import Taint, Tracker, callee_matches, field_reads, op_local, prep, backward, backward_calls
-from rules import CallGuard, CallSink, RetSink, AggSink
+from rules import CallGuard, CallSink, RetSink, AggSink, PL
 from props.C04 import call_results, agg_field_operands
 
 META = {
@@ -311,6 +311,41 @@ def run(R):
                         R.viol("C20.parser", "reader-can-refuse:%s" % f, "antnode parses %s with %s, which can fail, but the manager writes the value unvalidated: some service definitions it writes are refused by the node" % (f, reg["parser"]), pb, pb.lines[0])
                     break
         R.inst("C20.parser", "K7 table agreement", "hand-written value parsers of options the manager writes cannot refuse a value", npar, okpar)
+        # (3a') … and must take the value as it was written: whatever the parser hands on (to PathBuf::from, to a constructor) is the input
+        # string itself, not a trimmed / case-folded / otherwise rewritten copy — the manager prepared, chowned and recorded the directory
+        # (or name) it wrote, not the one the reader derives from it.  Comparisons of the input with keywords are not affected: only calls
+        # that receive a value *computed from* the input count.
+        from flow import must_be_copy_of
+        nver, okver = 0, True
+        seen_p = set()
+        for nm, m, body in (("install", mi, bi), ("upgrade", mu, bu), ("peers", mp, bp)):
+            for f, xs in m["flags"].items():
+                reg = (sub if f in SUBCMD_FLAGS else top).get(f[2:])
+                if not reg or not reg.get("parser") or reg["parser"] in INVERSE_CHECKED or reg["parser"] in seen_p:
+                    continue
+                seen_p.add(reg["parser"])
+                for pb in F.by_npath.get(reg["parser"], []) or ([F.body(reg["parser"])] if F.body(reg["parser"]) else []):
+                    prep(pb)
+                    params = set(PL(pb, 0))
+                    derived = Taint(pb, through="all").closure(params)
+                    for blk in pb.blocks:
+                        t = blk["term"]
+                        if t["k"] != "call" or blk["cleanup"] or t.get("from_macro") or (t.get("mac") or ""):
+                            continue
+                        for a_ in t["args"]:
+                            l = op_local(a_)
+                            if l is None or l not in derived:
+                                continue
+                            nver += 1
+                            if not must_be_copy_of(pb, l, params):
+                                okver = False
+                                R.viol("C20.parser.verbatim", "value-rewritten:%s" % f, "antnode's parser of %s (%s) hands a value computed from the input to %s: the node does not use %s as the manager wrote it"
+                                       % (f, reg["parser"], (t.get("ncallee") or t.get("ngen") or "?"), f), pb, t.get("l"))
+                                break
+                        if not okver:
+                            break
+                    break
+        R.inst("C20.parser.verbatim", "K6 flows-to (must-copy)", "hand-written value parsers of written options use the input string itself", nver, okver)
         # (3b) relations between options (conflicts_with …): a pair the reader refuses must never be written together
         id2long = {v["id"]: k for k, v in top.items()}
         emitted = {}
